@@ -106,6 +106,51 @@ fn md5_i32(v: &[i32]) -> String {
     format!("{:x}", md5::compute(&bytes))
 }
 
+/// the same encode through `new(Cursor)` instead of `create(path)`; the bytes are then written to `path`
+/// with a plain truncating write — the reference the path-based constructors are compared with
+fn encode_mem(path: &str, seed: u64) {
+    let (p, pcm) = params(seed);
+    let total = if p.declare { Some(pcm.len() as u64) } else { None };
+    let mut cur = std::io::Cursor::new(Vec::new());
+    let r: Result<(), String> = (|| {
+        match p.front {
+            0 => {
+                let mut w = FlacSampleWriter::new(&mut cur, options(&p), p.rate, p.bps, p.channels, total).map_err(|e| format!("{e:?}"))?;
+                w.write(&pcm).map_err(|e| format!("{e:?}"))?;
+                w.finalize().map_err(|e| format!("{e:?}"))
+            }
+            1 => {
+                let bytes = to_bytes(&pcm, p.bps, p.big_endian);
+                let tb = total.map(|_| bytes.len() as u64);
+                if p.big_endian {
+                    let mut w = FlacByteWriter::<_, flac_codec::byteorder::BigEndian>::new(&mut cur, options(&p), p.rate, p.bps, p.channels, tb).map_err(|e| format!("{e:?}"))?;
+                    w.write_all(&bytes).map_err(|e| format!("{e:?}"))?;
+                    w.finalize().map_err(|e| format!("{e:?}"))
+                } else {
+                    let mut w = FlacByteWriter::<_, flac_codec::byteorder::LittleEndian>::new(&mut cur, options(&p), p.rate, p.bps, p.channels, tb).map_err(|e| format!("{e:?}"))?;
+                    w.write_all(&bytes).map_err(|e| format!("{e:?}"))?;
+                    w.finalize().map_err(|e| format!("{e:?}"))
+                }
+            }
+            _ => {
+                let c = p.channels as usize;
+                let mut w = FlacChannelWriter::new(&mut cur, options(&p), p.rate, p.bps, p.channels, total.map(|t| t / c as u64)).map_err(|e| format!("{e:?}"))?;
+                let frames = pcm.len() / c;
+                let chans: Vec<Vec<i32>> = (0..c).map(|k| (0..frames).map(|i| pcm[i * c + k]).collect()).collect();
+                w.write(&chans).map_err(|e| format!("{e:?}"))?;
+                w.finalize().map_err(|e| format!("{e:?}"))
+            }
+        }
+    })();
+    match r {
+        Ok(()) => {
+            std::fs::write(path, cur.into_inner()).expect("write reference");
+            println!("RESULT ok");
+        }
+        Err(e) => println!("RESULT err {e}"),
+    }
+}
+
 fn encode(path: &str, seed: u64, stop: bool) {
     let (p, pcm) = params(seed);
     println!(
@@ -323,6 +368,7 @@ fn main() {
     let a: Vec<String> = std::env::args().collect();
     let cmd = a.get(1).map(|s| s.as_str()).unwrap_or("");
     match cmd {
+        "encode" if a.get(4).map(|s| s == "mem").unwrap_or(false) => encode_mem(&a[2], a[3].parse().unwrap()),
         "encode" => encode(&a[2], a[3].parse().unwrap(), a.get(4).map(|s| s == "stop").unwrap_or(false)),
         "pcm" => pcm_info(a[2].parse().unwrap()),
         "mkfile" => mkfile(&a[2], &a[3], a[4].parse().unwrap()),
